@@ -103,11 +103,11 @@ func (c16) Gen(r *rand.Rand, tier string, run int) *core.Case {
 			case x < 8:
 				op = core.Op{Kind: "terminate", X: int64(1 + r.IntN(objs+4*r.IntN(2)))}
 			default:
-				op = core.Op{Kind: []string{"add", "add-family", "readd", "add-early"}[r.IntN(4)], X: int64(1 + r.IntN(objs))}
+				op = core.Op{Kind: []string{"add", "add-family", "readd", "add-early", "add-doomed"}[r.IntN(5)], X: int64(1 + r.IntN(objs))}
 			}
 			op.Actor = a
 			op.Y = int64(r.IntN(2))
-			if op.Kind == "add-early" {
+			if op.Kind == "add-early" || op.Kind == "add-doomed" {
 				op.Y = int64([]int{0, 1, 3, 10, 40}[r.IntN(5)])
 			}
 			c.Ops = append(c.Ops, op)
@@ -157,6 +157,8 @@ type c16early struct {
 	seq     int
 	called  chan struct{}
 	started bool
+	// doom: the object terminates itself from within its activation
+	doom bool
 }
 
 func (c16) Run(c *core.Case, env *core.Env) {
@@ -192,10 +194,10 @@ func (c16) Run(c *core.Case, env *core.Env) {
 	// addEarly adds an object whose activation gives its identifier away and
 	// takes its time: a client calls the object while it is being activated.
 	// The call may succeed or fail; it has one outcome.
-	addEarly := func(a int, yields int) {
+	addEarly := func(a int, yields int, doom bool) {
 		st.mu.Lock()
 		earlyN++
-		req := &c16early{yields: yields, called: make(chan struct{}), seq: earlyN}
+		req := &c16early{yields: yields, called: make(chan struct{}), seq: earlyN, doom: doom}
 		if st.early == nil {
 			st.early = map[int]*c16early{}
 		}
@@ -210,7 +212,9 @@ func (c16) Run(c *core.Case, env *core.Env) {
 				return
 			}
 		}
-		<-req.called
+		if !doom {
+			<-req.called
+		}
 	}
 	add = func(a int, prev *c16obj) *c16obj {
 		h := env.Invoke(a, "add", "")
@@ -220,14 +224,24 @@ func (c16) Run(c *core.Case, env *core.Env) {
 		st.mu.Lock()
 		o := &c16obj{slot: len(st.objs)}
 		var early func(bus.Activation)
+		doomed := false
 		if req := st.early[a]; req != nil && prev == nil {
 			delete(st.early, a)
 			called, yields, seq := req.called, req.yields, req.seq
 			slot := o.slot
+			doomed = req.doom
 			early = func(act bus.Activation) {
 				st.mu.Lock()
 				req.started = true
 				st.mu.Unlock()
+				if req.doom {
+					for k := 0; k < yields; k++ {
+						zzsim.Yield("h.activate")
+					}
+					zzsim.Event("object of slot %d terminates itself during its activation", slot)
+					act.Terminate()
+					return
+				}
 				go func() {
 					defer close(called)
 					zzsim.SetNode("harness")
@@ -273,8 +287,20 @@ func (c16) Run(c *core.Case, env *core.Env) {
 		st.mu.Lock()
 		o.id = id
 		o.addRet = h.Ret
+		if doomed {
+			// it terminated itself before Add returned
+			o.removeCall = h.Call
+			o.removeRets = append(o.removeRets, h.Ret)
+		}
 		st.mu.Unlock()
 		for _, cl := range clients {
+			if doomed {
+				// (nobody can ask it for its meta object any more)
+				st.mu.Lock()
+				o.proxies = append(o.proxies, probe.MakeProbe(nil, bus.NewProxy(cl, meta, w.ServiceID, id)))
+				st.mu.Unlock()
+				continue
+			}
 			p, err := ProbeProxy(cl, w.ServiceID, id)
 			if err != nil {
 				// the object may have been removed meanwhile
@@ -489,8 +515,11 @@ func (c16) Run(c *core.Case, env *core.Env) {
 				case "add":
 					add(a, nil)
 				case "add-early":
-					addEarly(a, int(op.Y))
+					addEarly(a, int(op.Y), false)
 					env.Probe("objects-called-while-being-activated")
+				case "add-doomed":
+					addEarly(a, int(op.Y), true)
+					env.Probe("objects-terminating-themselves-during-activation")
 				case "add-family":
 					// a parent whose termination hook removes its child from
 					// the same service
